@@ -240,18 +240,33 @@ def complete (s : Schema) (g : Graph) (k : Nat → String → Nat → J × Acc) 
        | none => (.obj [], {}))
     | _, _ => (.null, { errs := [⟨[], .leaf⟩] })
 
-/-- does a fragment with condition `cond` apply at static container type `ty`?  As coded: identity. -/
-def fragApplies (env : Env) (node : Nat) (ty : String) (cond : Option String) : Bool :=
+/-- the type the selections of an object-valued field are walked at.  As coded at first (D14) the field's declared
+type, also when that is an interface; repaired (`resolve`, `case *Interface`): the object type the node's Go type is
+bound to when that type implements the interface, else the interface itself.  (Union members are chosen by
+`complete`, in both configurations.) -/
+def dynTy (env : Env) (node : Nat) (ty : String) : String :=
+  if env.cfg.condByIdentity then ty else
+  match env.schema.find ty, env.graph[node]? with
+  | some (.iface ..), some n =>
+    (match env.schema.find n.goType with
+     | some (.object _ _ ifs) => if ifs.contains ty then n.goType else ty
+     | _ => ty)
+  | _, _ => ty
+
+/-- does a fragment with condition `cond` apply at the type `ty` the selections are walked at?  As coded at first:
+identity.  Repaired (`fragmentApplies`): the condition is that type, an interface the (object) type implements or
+a union it is a member of. -/
+def fragApplies (env : Env) (_node : Nat) (ty : String) (cond : Option String) : Bool :=
   match cond with
   | none => true
   | some c =>
     if env.cfg.condByIdentity then c == ty
     else
-      -- repaired: the concrete object type of the node is the condition, implements it, or is a member of it
-      let concrete := match env.graph[node]? with | some n => n.goType | none => ty
-      c == concrete ||
-      (match env.schema.find concrete with | some (.object _ _ ifs) => ifs.contains c | _ => false) ||
-      (match env.schema.find c with | some (.union _ ms) => ms.contains concrete | _ => false)
+      c == ty ||
+      (match env.schema.find ty with
+       | some (.object _ _ ifs) =>
+         ifs.contains c || (match env.schema.find c with | some (.union _ ms) => ms.contains ty | _ => false)
+       | _ => false)
 
 mutual
 /-- one selection against `(node, ty)` at resolveSels-depth `d`, updating the result map -/
@@ -262,13 +277,9 @@ def rSel (env : Env) (node : Nat) (ty : String) (d : Nat) (res : List (String ×
     let skipErrs : List Err := (List.replicate sk.2 (⟨[.key key], .directive⟩ : Err))
     if sk.1 then (res, { errs := skipErrs }) else
     if name == "__typename" then
-      -- as coded: the *static* container type's name (D14); repaired: the concrete object type
-      let tn := if env.cfg.condByIdentity then ty else
-        (match env.schema.find ty, env.graph[node]? with
-         | some (.object ..), _ => ty
-         | _, some n => n.goType
-         | _, none => ty)
-      (setKey res key (.str tn), { errs := skipErrs }) else
+      -- the name of the type the selections are walked at (`dynTy`: under an interface-typed field the interface
+      -- itself as coded at first, D14; the object's own type once repaired)
+      (setKey res key (.str ty), { errs := skipErrs }) else
     match getFieldDef env.schema ty name with
     | none => (res, { errs := skipErrs ++ [⟨[.key key], .notAField name⟩] })
     | some fd =>
@@ -281,7 +292,7 @@ def rSel (env : Env) (node : Nat) (ty : String) (d : Nat) (res : List (String ×
         let fr : FieldRes := fetch env.graph node name
         let call : Call := ⟨node, name, ty, args⟩
         let resolverErrs : List Err := List.replicate fr.errs ⟨[], .resolver⟩
-        let (fv, acc) := complete env.schema env.graph (fun n t d' => if sels.isEmpty then (.obj [], { errs := [⟨[], .noSelection⟩] }) else let r := rSels env n t d' [] sels; (.obj r.1, r.2)) fd.type fr.val d
+        let (fv, acc) := complete env.schema env.graph (fun n t d' => if sels.isEmpty then (.obj [], { errs := [⟨[], .noSelection⟩] }) else let r := rSels env n (dynTy env n t) d' [] sels; (.obj r.1, r.2)) fd.type fr.val d
         let fv := if fr.errs > 0 && !env.cfg.keepValueOnError then J.null else fv
         ((match fr.val with | .nil => putNil env.cfg res key | _ => putVal env.cfg res key fv),
          { errs := skipErrs ++ prefixErrs (.key key) (resolverErrs ++ acc.errs), calls := call :: acc.calls })
